@@ -167,6 +167,109 @@ func canonAll(xs []interface{}) []interface{} {
 	return out
 }
 
+// ---------------------------------------------------------------- emissions as a crew reports them (C08)
+
+// emitSpec: a machine whose walk for one message passes several actions that emit, some of which fail afterwards, with an
+// error node that may have a handler of its own (which may emit and may fail, too)
+func emitSpec(rng *rand.Rand) *mach.ASpec {
+	seq := 0
+	em := func() mach.Op { seq++; return mach.Op{Name: "emit", V: pat("e", float64(seq))} }
+	fail := func() []mach.Op {
+		switch rng.Intn(4) {
+		case 0:
+			return []mach.Op{{Name: "throw"}}
+		case 1:
+			return []mach.Op{{Name: "retscalar"}}
+		default:
+			return nil
+		}
+	}
+	act := func() []mach.Op {
+		ops := []mach.Op{}
+		for i, n := 0, rng.Intn(3); i < n; i++ {
+			ops = append(ops, em())
+		}
+		if rng.Intn(3) == 0 {
+			ops = append(ops, mach.Op{Name: "set", K: "seen", V: float64(seq)})
+		}
+		return append(ops, fail()...)
+	}
+	a := &mach.ASpec{Nodes: map[string]*mach.ANode{
+		"start": {BType: "message", Branches: []mach.ABranch{{HasPat: true, Pat: pat("go", "?x"), Target: "work"}}},
+		"work":  {Act: append([]mach.Op{em()}, mach.Op{Name: "del", K: "?x"}), BType: "bindings", Branches: []mach.ABranch{{Target: "risky"}}},
+		"risky": {Act: act(), BType: "bindings", Branches: []mach.ABranch{{Target: []string{"start", "more"}[rng.Intn(2)]}}},
+		"more":  {Act: act(), BType: "bindings", Branches: []mach.ABranch{{Target: "start"}}},
+	}}
+	if rng.Intn(3) > 0 {
+		// an error handler
+		h := &mach.ANode{Act: act(), BType: "bindings"}
+		if rng.Intn(2) == 0 {
+			h.Branches = []mach.ABranch{{Target: "start"}}
+		} else {
+			// a handler that stays where it is runs again for every message the machine is presented, its own emissions
+			// included: it must not emit (or the crew feeds it for ever)
+			h.Act = []mach.Op{{Name: "set", K: "handled", V: true}, {Name: pickFail(rng)}}
+		}
+		a.Nodes["error"] = h
+	}
+	a.AEB = rng.Intn(4) == 0
+	return a
+}
+
+func pickFail(rng *rand.Rand) string { return []string{"throw", "retscalar"}[rng.Intn(2)] }
+
+func emitCrewRun(id int, rng *rand.Rand) O {
+	ctx, cancel := context.WithCancel(context.Background())
+	defer cancel()
+	c, err := sio.NewCrew(ctx, &sio.CrewConf{Id: "emit", Ctl: &core.Control{Limit: 100}}, &coup{make(chan interface{}, 64), make(chan *sio.Result, 64)})
+	check(err)
+	specs := map[string]*mach.ASpec{"m1": emitSpec(rng)}
+	if rng.Intn(2) == 0 {
+		specs["m2"] = emitSpec(rng)
+	}
+	mids := []string{}
+	ms := O{}
+	for mid, a := range specs {
+		mids = append(mids, mid)
+		ms[mid] = O{"spec": mach.EncSpec(a), "st": T{"st", "start", O{}}}
+	}
+	sort.Strings(mids)
+	for _, mid := range mids {
+		check(c.SetMachine(ctx, mid, &crew.SpecSource{Inline: mach.Build(specs[mid])}, &core.State{NodeName: "start", Bs: match.Bindings{}}))
+	}
+	steps := T{}
+	outcome := "returned"
+	for i, n := 0, 1+rng.Intn(3); i < n; i++ {
+		msg := pat("go", float64(i))
+		if rng.Intn(4) == 0 {
+			msg = pat("to", mids[rng.Intn(len(mids))], "go", float64(i))
+		}
+		var r *sio.Result
+		func() {
+			defer func() {
+				if x := recover(); x != nil {
+					outcome = "panicked"
+				}
+			}()
+			r, err = c.ProcessMsg(ctx, enc.DeepCopy(msg))
+		}()
+		if r == nil || err != nil {
+			outcome = "failed"
+			break
+		}
+		states := O{}
+		for _, mid := range mids {
+			states[mid] = mach.EncState(c.Machines[mid].State)
+		}
+		batches := T{}
+		for _, b := range r.Emitted {
+			batches = append(batches, mach.EncMsgs(canonAll(b)))
+		}
+		steps = append(steps, O{"msg": enc.V(msg), "states": states, "emitted": batches})
+	}
+	return O{"id": id, "kind": "emitcrew", "machines": ms, "steps": steps, "outcome": outcome, "raw": enc.Canon(O{"specs": specs, "n": len(steps)})}
+}
+
 // ---------------------------------------------------------------- cmd/msimple (spec/MsimpleOps.tla)
 
 // multi: forwards what it is given under "relay", forwards both halves of a "pair" (a, then b), remembers the last value it
@@ -287,6 +390,20 @@ func msimpleRun(id int, rng *rand.Rand, bin, specFile string) O {
 func main() {
 	log.SetOutput(io.Discard)
 	switch os.Args[1] {
+	case "emitcrew":
+		n, _ := strconv.Atoi(os.Args[2])
+		seed, _ := strconv.Atoi(os.Args[3])
+		rng := rand.New(rand.NewSource(int64(seed)))
+		f, err := os.Create(os.Args[4])
+		check(err)
+		w := bufio.NewWriterSize(f, 1<<20)
+		e := json.NewEncoder(w)
+		e.SetEscapeHTML(false)
+		for id := 1; id <= n; id++ {
+			check(e.Encode(emitCrewRun(id, rng)))
+		}
+		w.Flush()
+		f.Close()
 	case "msimple-config":
 		f, err := os.Create(os.Args[2])
 		check(err)
